@@ -303,14 +303,75 @@ RTF_BUILDERS = (
     ("n page breaks", lambda n: "{\\rtf1 " + "a\\page " * n + "}"),
     ("one control word of n letters", lambda n: "{\\rtf1 \\" + "a" * n + " x}"),
     ("n unterminated groups", lambda n: "{\\rtf1 " + "{\\b " * n),
+    ("n sibling groups", lambda n: "{\\rtf1 " + "{\\b x}" * n + "}"),
+    ("n sibling groups with white space after the brace", lambda n: "{\\rtf1 " + "{\r\n \\i x}" * n + "}"),
+    ("n nested groups each followed by text", lambda n: "{\\rtf1 " + "{x " * n + "}" * n + "}"),
 )
 
 
-def amp_rtf():
+class CountingStr(str):
+    """str whose slices are counted (characters copied out of the scanned text; slices of slices count too): a deterministic cost measure
+    for a scanner that receives its text as an argument."""
+    copied = 0
+
+    def __getitem__(self, k):
+        r = str.__getitem__(self, k)
+        if isinstance(k, slice):
+            CountingStr.copied += len(r)
+            return CountingStr(r)
+        return r
+
+
+def _rtf_counted(ob):
+    """The scan function named by the obligation (`<Class>.<method>(self, text)`), run on a parser instance over every builder at two sizes
+    with the text handed in as CountingStr: characters sliced out of the text must grow linearly with it.  None when the function cannot
+    be set up this way (then only the timing below decides)."""
+    import re as _re
+    from sharepoint2text.parsing.extractors.ms_legacy import rtf_extractor as Rm
+    m = _re.search(r"::([A-Za-z_][\w]*)\.([A-Za-z_][\w]*)/", ob or "")
+    if not m:
+        return None
+    cls = getattr(Rm, m.group(1), None)
+    if cls is None or not callable(getattr(cls, m.group(2), None)):
+        return None
+    n1, n2 = 1500, 12000
+    seen_any = False
+    for label, build in RTF_BUILDERS:
+        counts = []
+        for n in (n1, n2):
+            text = build(n)
+            try:
+                inst = cls(b"{\\rtf1 x}")
+                CountingStr.copied = 0
+                getattr(inst, m.group(2))(CountingStr(text))
+            except RecursionError:
+                counts = None
+                break
+            except Exception:  # noqa
+                counts = None
+                break
+            counts.append((CountingStr.copied, len(text)))
+        if not counts:
+            continue
+        seen_any = True
+        (c1, l1), (c2, l2) = counts
+        if c2 > 3 * (l2 / l1) * max(c1, l1) and c2 > 64 * l2:
+            return True, {"builder": f"RTF body with {label}, n = {n1} and {n2}, handed to {m.group(1)}.{m.group(2)} as a str that counts the characters sliced out of it"}, \
+                f"{c1} characters sliced out of a {l1}-character body, {c2} out of a {l2}-character body (x{c2 / max(c1, 1):.1f} for x{l2 / l1:.1f} input)"
+    return (False, {}, "characters sliced out of the text grow linearly for every builder") if seen_any else None
+
+
+def amp_rtf(ob=None):
     from sharepoint2text.parsing.extractors.ms_legacy import rtf_extractor as Rm
     read = getattr(Rm, "read_rtf", None)
     if read is None:
         return False, {}, "no read_rtf"
+    try:
+        counted = _rtf_counted(ob)
+    except Exception:  # noqa
+        counted = None
+    if counted is not None and counted[0]:
+        return counted
     worst = (False, {}, "no builder scales worse than linearly")
     for label, build in RTF_BUILDERS:
         def run(data):
@@ -1180,7 +1241,7 @@ def find(req):
     # ---- amplification
     for key, fn in AMPLIFIERS:
         if key in ob:
-            ok, inputs, obs = fn()
+            ok, inputs, obs = fn(ob) if fn is amp_rtf else fn()
             if ok:
                 return {"reproduced": True, "target": ob, "inputs": inputs, "observed": obs,
                         "expected": "work and output bounded by a fixed multiple of the input size"}
